@@ -475,7 +475,10 @@ def nj_rules(chk):
         want = Normaliser().poly(_expr(reft))
         chk.ob("R-NJ-REC", c2 + "{recurrence %s}" % ("u" if which == 0 else "v"),
                "x[i+1] = A[k] . (u[i], v[i]) + B[k] . (load[i], load[i+1]), k = %d, stored at column i + 1" % which, got == want and okcol,
-               derived="%s -> column %s" % (got.canon(), col), loc=fr_.loc(stn), stmt=norm_stmt(stn))
+               derived="%s -> column %s" % (got.canon(), col), loc=fr_.loc(stn), stmt=norm_stmt(stn),
+               # what is stored is a bare local the straight-line environment cannot read through (a state carried and re-bound in the loop): the
+               # update expression itself is not located
+               inconclusive=(okcol and got.is_monomial() and len(got.atoms()) == 1 and bool(__import__("re").fullmatch(r"[A-Za-z_]\w*", list(got.atoms())[0]))))
 
 
 def _t0_selector(fi, per):
